@@ -848,7 +848,7 @@ LM_MODES = ['wrong_at_eos', 'perfect', 'wrong_at_bos', 'wrong_at_oov', 'only_eos
             'special_over_target', 'random', 'wrong_at_eos', 'random']
 
 
-def lm_logits(y, c, mode, ks, noise, stride):
+def lm_logits(y, c, mode, ks, noise, stride, shift=0):
   b, length = y.shape
   v = c['V']
   base = tiled(np.asarray(noise, np.float32) / 2, b * length * v, stride).reshape(b, length, v)
@@ -857,7 +857,9 @@ def lm_logits(y, c, mode, ks, noise, stride):
   bi, ti = np.meshgrid(np.arange(b), np.arange(length), indexing='ij')
   logits[bi, ti, k2] += 16.0
   logits[bi, ti, k1] += 32.0
-  return logits.astype(np.float32)
+  # (a common shift changes neither softmax nor arg-max; with shift >= 64 every
+  # logit -- the best ordinary label included -- is negative)
+  return (logits - float(shift)).astype(np.float32)
 
 
 def cross_entropy64(logits, targets):
@@ -1027,7 +1029,8 @@ def run_lm_agreement(case):
     model = lm_model('stackoverflow', case['vocab'], case['expected_length'])
     names, kind = LM_NAMES + ['truncation_rate'], ('sum', case['expected_length'])
     prefix = 'stackoverflow_model'
-  plan = lambda y: lm_logits(y, c, mode, case['ks'], case['noise'], case['stride'])
+  plan = lambda y: lm_logits(y, c, mode, case['ks'], case['noise'], case['stride'],
+                              case.get('shift', 0))
   lm_agreement(model, batches, c, names, prefix, kind, plan)
   extra = set()
   for b in batches:
@@ -1042,6 +1045,7 @@ _plan_fields = {
     'ks': st.lists(st.integers(0, 9999), min_size=1, max_size=8),
     'noise': st.lists(st.integers(-8, 8), min_size=2, max_size=24),
     'stride': _odd,
+    'shift': st.sampled_from([0, 0, 64, 1024]),
 }
 
 
@@ -1257,7 +1261,7 @@ def run_task_pairing(case):
                   f'{prefix}:domain_id')
         require(shape == (BFIX, length, c['V']), f'{prefix}:model_output_shape',
                 lambda: f'{shape}, dataset rows {x0.shape}, dataset vocabulary {c["V"]}')
-        plan = lambda y: lm_logits(y, c, *plan_args)
+        plan = lambda y: lm_logits(y, c, *plan_args, case.get('shift', 0))
         lm_agreement(model, batches, c, names, prefix, loss_kind, plan)
   return sorted(extra)
 
